@@ -38,7 +38,7 @@ func defaultProfile() profile {
 		encsMain: []string{"I32"}, encsSmall: []string{"String16", "VarEnc", "Type", "Bytes3", "U64", "I8", "Int"},
 		insts:  []string{h.InstFresh, h.InstUnm, h.InstProto},
 		needQs: true, nilVals: true,
-		quickIDk: 4, quickScafK: 3, thoroughIDk: 6, thoroughScafK: 4, u85k: 3,
+		quickIDk: 4, quickScafK: 3, thoroughIDk: 6, thoroughScafK: 3, u85k: 3,
 		many: true, manyQuick: true,
 		shortQuick: []int{2, 3}, shortThorough: []int{1, 2, 3, 4, 5, 6, 7, 8, 9, 10},
 		noOptArg: true, fillerPairs: true,
@@ -372,24 +372,48 @@ func buildPhases(r *h.Run, p profile) []phase {
 	}
 	r.Bounds["scaffolds"] = scNames
 	r.Bounds["scaffold_space"] = fmt.Sprintf("K(U21,%d) = %d variable sets per scaffold", sck, h.SubsetCount(len(sp.u2), sck))
+	var latePhases []phase
 	if len(scs) > 0 {
 		if thorough {
-			// the 130 shift offsets multiply the space: they range over K(U21,2),
-			// every other scaffold over K(U21,thoroughScafK)
-			var shifts, others []h.Scaffold
+			// the 130 shift offsets and the large short-table fillers (s >= 5: up to
+			// 56 k keys per list) multiply the space: shifts range over K(U21,2), the
+			// large fillers over K(U21,1), every other scaffold over
+			// K(U21,thoroughScafK); the expensive ones run last
+			var shifts, huge, others []h.Scaffold
 			for _, sc := range scs {
-				if len(sc.Name) > 5 && sc.Name[:5] == "shift" {
+				switch {
+				case len(sc.Name) > 5 && sc.Name[:5] == "shift":
 					shifts = append(shifts, sc)
-				} else {
+				case len(sc.Name) > 5 && sc.Name[:5] == "short" && sc.Name[5] >= '5':
+					huge = append(huge, sc)
+				case sc.Name == "short10":
+					huge = append(huge, sc)
+				default:
 					others = append(others, sc)
 				}
 			}
 			if len(others) > 0 {
-				phases = append(phases, subsetPhase("scaffolds:K(U21)", sp.u2, 0, sck, others, mk(sp.q2)))
+				latePhases = append(latePhases, subsetPhase("scaffolds:K(U21)", sp.u2, 0, sck, others, mk(sp.q2)))
 			}
 			if len(shifts) > 0 {
 				r.Bounds["shift_scaffold_space"] = fmt.Sprintf("K(U21,2) = %d variable sets per shift offset", h.SubsetCount(len(sp.u2), 2))
-				phases = append(phases, subsetPhase("shift-scaffolds:K(U21,2)", sp.u2, 0, 2, shifts, mk(sp.q2)))
+				latePhases = append(latePhases, subsetPhase("shift-scaffolds:K(U21,2)", sp.u2, 0, 2, shifts, mk(sp.q2)))
+			}
+			if len(huge) > 0 {
+				r.Bounds["large_short_filler_space"] = fmt.Sprintf("K(U21,1) = %d variable sets per large short-table filler", h.SubsetCount(len(sp.u2), 1))
+				mkh := mk(sp.q2)
+				latePhases = append(latePhases, subsetPhase("large-short-fillers:K(U21,1)", sp.u2, 0, 1, huge, func(sc *h.Scaffolded, small bool) *inputSpec {
+					u := mkh(sc, false)
+					if p.opts == nil {
+						u.opts = h.Distinct8()
+					}
+					u.fillerModes = []string{"distinct"}
+					u.insts = []string{h.InstFresh, h.InstUnm}
+					if p.needQs {
+						u.qs = queriesFor(sc, sp.q2, false, false)
+					}
+					return u
+				}))
 			}
 		} else {
 			phases = append(phases, subsetPhase("scaffolds:K(U21)", sp.u2, 0, sck, scs, mk(sp.q2)))
@@ -571,7 +595,7 @@ func buildPhases(r *h.Run, p profile) []phase {
 			}
 		}})
 	}
-	return phases
+	return append(phases, latePhases...)
 }
 
 func containsStr(l []string, s string) bool {
